@@ -44,7 +44,7 @@ func sbReplayPV(root sbRoot, pv []string) (prefix int, m0, m1 move.Move) {
 	b := sbBoard(root)
 	ok := true
 	for i, t := range pv {
-		m, legal := move.Move(sbBadMove), false
+		m, legal := hx.U2M(uint64(sbBadMove)), false
 		if ok {
 			if pm, err := uci.VerifParseUCIMove(b, t); err == nil {
 				m, legal = pm, sbIsLegal(b, pm)
@@ -80,7 +80,7 @@ func sbLinesObservation(root sbRoot, lines []string, out *hx.Nums) (allParsed bo
 			allParsed = false
 		}
 		prefix, m0, m1 := sbReplayPV(root, in.PV)
-		out.Int(in.Kind, in.Depth, in.Nodes, in.ScoreKind, in.ScoreVal, len(in.PV), prefix).U(uint64(m0), uint64(m1))
+		out.Int(in.Kind, in.Depth, in.Nodes, in.ScoreKind, in.ScoreVal, len(in.PV), prefix).U(hx.M2U(m0), hx.M2U(m1))
 	}
 	return
 }
@@ -110,7 +110,7 @@ func runC07(a hx.Args) string {
 	res := sbRun(s, b, r)
 	out := &hx.Nums{}
 	parsed := sbLinesObservation(r.Root, res.Lines, out)
-	out.U(uint64(res.Move), uint64(res.Ponder)).B(sbPonderLegal(r.Root, res.Move, res.Ponder)).B(parsed && !res.Watchdog)
+	out.U(hx.M2U(res.Move), uint64(res.Ponder)).B(sbPonderLegal(r.Root, res.Move, res.Ponder)).B(parsed && !res.Watchdog)
 	return out.String()
 }
 
@@ -182,7 +182,7 @@ func runC07uci(a hx.Args) string {
 			}
 		}
 	}
-	out.U(uint64(m), uint64(p)).B(sbPonderLegal(r.Root, m, p)).B(parsed)
+	out.U(hx.M2U(m), uint64(p)).B(sbPonderLegal(r.Root, m, p)).B(parsed)
 	return out.String()
 }
 
@@ -250,7 +250,7 @@ func sbTranscript(root sbRoot, lines []string) (*hx.Nums, bool) {
 				sv = -sv
 			}
 		}
-		out.Int(in.Kind, in.Depth, in.Nodes, sk, sv, len(in.PV)).U(uint64(m0), uint64(m1))
+		out.Int(in.Kind, in.Depth, in.Nodes, sk, sv, len(in.PV)).U(hx.M2U(m0), hx.M2U(m1))
 	}
 	return out, known
 }
@@ -285,7 +285,7 @@ func runC07id(a hx.Args) string {
 			n++
 		}
 	}
-	return (&hx.Nums{}).U(uint64(res.Move), uint64(res.Ponder)).Int(n).B(res.Aborted).I(sc).String()
+	return (&hx.Nums{}).U(hx.M2U(res.Move), uint64(res.Ponder)).Int(n).B(res.Aborted).I(sc).String()
 }
 
 func genC07id(rng *hx.Rng, n int, tier string, emit func(hx.Input)) {
@@ -297,7 +297,7 @@ func genC07id(rng *hx.Rng, n int, tier string, emit func(hx.Input)) {
 		s := sbEngine(r.TTKB, r.Warm, b)
 		res := sbRun(s, b, r)
 		tr, _ := sbTranscript(r.Root, res.Lines)
-		in := r.encode().U(uint64(sbFirstLegal(b))).Int(sbWindowSize())
+		in := r.encode().U(hx.M2U(sbFirstLegal(b))).Int(sbWindowSize())
 		emit(hx.Input{In: in.String() + " " + tr.String(), Desc: r.desc(), Tags: tags,
 			NonTrivial: len(res.Lines) > 1})
 	})
@@ -309,7 +309,7 @@ func genC07id(rng *hx.Rng, n int, tier string, emit func(hx.Input)) {
 func runC07pv(a hx.Args) string {
 	pv := search.VerifNewPV()
 	for i := 0; i+2 < a.Len(); i += 3 {
-		k, ply, m := a.Int(i), a.I64(i+1), move.Move(a.U64(i+2))
+		k, ply, m := a.Int(i), a.I64(i+1), hx.U2M(a.U64(i+2))
 		if k == 0 {
 			pv.SetNull(Depth(ply))
 		} else {
@@ -321,7 +321,7 @@ func runC07pv(a hx.Args) string {
 		l := pv.Line(Depth(p))
 		out.Int(len(l))
 		for _, m := range l {
-			out.U(uint64(m))
+			out.U(hx.M2U(m))
 		}
 	}
 	return out.String()
